@@ -21,6 +21,7 @@ CORR2 = ["missing sensors names", "missing points coordinates", "missing mapping
 ALL_STATES = ["geo1:" + c for c in CORR1] + ["geo2:" + c for c in CORR2] + ["table rows permuted against name order", "multi-setup names (table)", "multi-setup names (list of lists)",
                                                                                  "single names (row table)", "single names (list)", "single names (array)", "optional sheets all omitted",
                                                                                  "optional sheets all present", "constraints used", "constraints sheet omitted"]
+ALL_STATES += ["removed name is a substring of another cell", "sign table with row labels other than the points' labels"]
 REQUIRED_STATES = list(ALL_STATES)
 RULE = ("sensor sets of 1..12 names; coordinate/direction tables with rows permuted against the name order; mapping tables whose cells are sensor names, constraint "
         "names or 0/NaN; constraint matrices; sign tables in {-1,0,1}; one-based line/surface tables; optional sheets present/absent in every combination; "
@@ -39,19 +40,23 @@ def cases(tier, seed):
     out = []
     for k in range(n):
         out.append({"cls": ["geo1", "geo2", "geo1_args", "geo2_args"][k % 4], "k": k})
-    out += [{"cls": "corrupt1", "k": k} for k in range(len(CORR1) * (2 if tier == "quick" else 20))]
-    out += [{"cls": "corrupt2", "k": k} for k in range(len(CORR2) * (2 if tier == "quick" else 20))]
+    out += [{"cls": "corrupt1", "k": k} for k in range(len(CORR1) * (4 if tier == "quick" else 20))]
+    out += [{"cls": "corrupt2", "k": k} for k in range(len(CORR2) * (4 if tier == "quick" else 20))]
     out += [{"cls": "artists", "k": k} for k in range(24 if tier == "quick" else 300)]
     return out
 
 
 # ------------------------------------------------------------------------------------------- generators
-def make_setup(rng, multi):
+def make_setup(rng, multi, numbered=False):
     """returns (setup object, names argument forms, flat expected names)"""
     from pyoma2.setup import MultiSetup_PreGER, SingleSetup
     if not multi:
-        n = int(rng.integers(1, 13))
+        n = int(rng.integers(10, 13)) if numbered else int(rng.integers(1, 13))
         names = [f"s{int(i)}" for i in rng.permutation(40)[:n]]
+        if numbered or rng.random() < 0.35:
+            # the usual numbered channel names: one name is a substring of another (ch1 / ch10, r1 / r11, REF1 / REF10)
+            stem = str(rng.choice(["ch", "r", "REF", "acc_"]))
+            names = [f"{stem}{int(i) + 1}" for i in rng.permutation(max(n, 10) + 2)[:n]]
         ss = SingleSetup(rng.standard_normal((30, n)), 10.0)
         forms = {"single names (row table)": pd.DataFrame([names], index=pd.Index([1], name="setup No."), columns=[f"chann. {i+1}" for i in range(n)]),
                  "single names (list)": list(names), "single names (array)": np.array(names)}
@@ -137,7 +142,11 @@ def tables2(rng, flat, optional, with_constraints):
     d = {"points coordinates": pts, "mapping": mp}
     if cst is not None:
         d["constraints"] = cst
-    opt = {"sensors sign": pd.DataFrame(rng.integers(-1, 2, (npts, 3)).astype(float), index=pts.index.copy(), columns=["x", "y", "z"])}
+    # the sign table is read by position (row k = point k): its own row labels may be the points' labels, a default 0..n-1 index
+    # (an ndarray / a sheet without the label column) or anything else
+    u = rng.random()
+    sidx = pts.index.copy() if u < 0.5 else (pd.RangeIndex(npts) if u < 0.8 else pd.Index([f"row{k}" for k in rng.permutation(npts)]))
+    opt = {"sensors sign": pd.DataFrame(rng.integers(-1, 2, (npts, 3)).astype(float), index=sidx, columns=["x", "y", "z"])}
     if npts >= 2:
         opt["sensors lines"] = pd.DataFrame(rng.integers(1, npts + 1, (2, 2)), columns=["start", "end"])
     if npts >= 3:
@@ -353,7 +362,11 @@ def corrupt(rng, which, name, tabs, flat, names_tab):
     elif name == "sign fewer rows":
         d["sensors sign"] = pd.DataFrame(np.ones((len(d["points coordinates"]) - 1 or 2, 3)))
     elif name == "name not in mapping":
-        d["mapping"] = d["mapping"].replace(flat[-1], 0)
+        cells = [c for c in d["mapping"].to_numpy().ravel() if isinstance(c, str)]
+        inside = [n_ for n_ in flat if any(n_ != c and n_ in c for c in cells)]  # absent names that still occur INSIDE another cell's text
+        victim = inside[int(rng.integers(0, len(inside)))] if inside and rng.random() < 0.7 else flat[-1]
+        d["mapping"] = d["mapping"].replace(victim, 0)
+        corrupt.note = "removed name is a substring of another cell" if victim in inside else None
     elif name == "constraint column unknown sensor":
         c = d["constraints"].copy()
         c["zz_unknown"] = 0.5
@@ -370,7 +383,10 @@ def run_corrupt(ctx, case, rng, which):
     names_list = CORR1 if which == 1 else CORR2
     name = names_list[case["k"] % len(names_list)]
     multi = rng.random() < 0.3
-    setup, forms, flat = make_setup(rng, multi)
+    if name == "name not in mapping" and rng.random() < 0.6:
+        setup, forms, flat = make_setup(rng, False, numbered=True)
+    else:
+        setup, forms, flat = make_setup(rng, multi)
     if len(flat) < 2:
         setup, forms, flat = make_setup(np.random.default_rng(case["k"] + 5), True)
     names_tab = [v for v in forms.values() if isinstance(v, pd.DataFrame)][0]
@@ -380,7 +396,10 @@ def run_corrupt(ctx, case, rng, which):
         if "constraints" not in tabs:
             ctx.not_judged("no free mapping cell for a constraint")
             return
+    corrupt.note = None
     bad = corrupt(rng, which, name, tabs, flat, names_tab)
+    if corrupt.note:
+        ctx.state(corrupt.note)
     tag = f"corruption->ValueError@geo{which}"
     ctx.ev(tag)
     via_file = rng.random() < 0.5
@@ -461,6 +480,8 @@ def run_artists(ctx, rng):
         if isinstance(cell, str):
             disp[i, j] = val[cell] if cell in val else cval[cell]
     sign = t2["sensors sign"].to_numpy(float) if "sensors sign" in t2 else np.ones(disp.shape)
+    if "sensors sign" in t2 and list(t2["sensors sign"].index) != list(t2["points coordinates"].index):
+        ctx.state("sign table with row labels other than the points' labels")
     newpts = t2["points coordinates"].to_numpy(float) + disp * sign
     got = None
     for col in ax.collections:
